@@ -688,6 +688,18 @@ impl<'lexer> Lexer<'lexer> {
         }
         part_count -= 1;
       }
+      // not a built-in type: the name of a custom type ends before the first keyword
+      // that the longest possible name may have swallowed
+      self.type_name = false;
+      if let Some(index) = parts
+        .iter()
+        .position(|part| matches!(part.as_str(), "and" | "or" | "then" | "else" | "return" | "satisfies" | "in" | "between" | "instance"))
+      {
+        if index > 0 {
+          self.position = consumed_positions[index - 1] + 1;
+          return Ok((TokenType::Name, TokenValue::Name(parts[..index].to_vec().into())));
+        }
+      }
     }
 
     // ------------------------------------------------------------------------
